@@ -190,7 +190,9 @@ do {									\
 		cl += bs->cri_rate;					\
 									\
 		if (cl >= bs->oversampling_rate) {			\
-			if (collect_points) {				\
+			if (collect_points				\
+			    && (unsigned int)(points - points_start)	\
+			       < max_cri_points) {			\
 				points->kind = VBI3_CRI_BIT;		\
 				points->index = (raw - raw_start) << 8;	\
 				points->level = tavg << 8;		\
@@ -274,6 +276,7 @@ bit_slicer_ ## fmt		(vbi3_bit_slicer *	bs,		\
 	static const unsigned int oversampling = os;			\
 	static const vbi3_bit_slicer_point *points_start = NULL;	\
 	static const vbi_bool collect_points = FALSE;			\
+	static const unsigned int max_cri_points = 0;			\
 	unsigned int thresh_frac = tf;					\
 									\
 	CORE ();							\
@@ -352,7 +355,9 @@ low_pass_bit_slicer_Y8		(vbi3_bit_slicer *	bs,
 			cl += bs->cri_rate;
 
 			if (cl >= bs->oversampling_rate) {
-				if (unlikely (NULL != points)) {
+				if (unlikely (NULL != points)
+				    && (unsigned int)(points - points_start)
+				       < bs->max_cri_points) {
 					points->kind = VBI3_CRI_BIT;
 					points->index =	(raw - raw_start)
 						* 256 / bs->bytes_per_sample
@@ -541,6 +546,7 @@ vbi3_bit_slicer_slice_with_points
 	static const unsigned int thresh_frac = DEF_THR_FRAC;
 	static const vbi_bool collect_points = TRUE;
 	vbi3_bit_slicer_point *points_start;
+	unsigned int max_cri_points;
 
 	assert (NULL != bs);
 	assert (NULL != buffer);
@@ -564,6 +570,13 @@ vbi3_bit_slicer_slice_with_points
 			 max_points, bs->total_bits);
 		return FALSE;
 	}
+
+	/* The CRI search clocks in one bit per CRI bit period until the
+	   CRI is found, on a long or blank line many more than cri_bits.
+	   Store only as many CRI points as leave room for the FRC and
+	   payload points. */
+	max_cri_points = max_points - (bs->frc_bits + PAYLOAD_BITS (bs));
+	bs->max_cri_points = max_cri_points;
 
 	if (low_pass_bit_slicer_Y8 == bs->func) {
 		return bs->func (bs, buffer, points, n_points, raw);
